@@ -14,6 +14,9 @@
 //!    sequences interleaved (systematic and random schedules, builds given up, failing builds); the module returned for each
 //!    build's task id is compared with the one-at-a-time module and, when it differs, judged in O against the declaration file
 //!    of that file (signatures `interleaved:*`).
+//! Generate histories (c14/history.rs): 2–4 runs of the real CLI in ONE project directory with edits in between; after the last run
+//!    the declaration files on disk are judged against the loader module for the final config and every emitted file is compared
+//!    byte-for-byte with a fresh directory holding the final state (signatures `history:*`).
 use nitrogql_ast::{set_current_file_of_pos, OperationDocument};
 use nitrogql_checker::{check_operation_document, OperationCheckContext};
 use nitrogql_config_file::{parse_config, Config};
@@ -34,6 +37,8 @@ use std::path::{Path, PathBuf};
 
 #[path = "c14/session.rs"]
 mod session;
+#[path = "c14/history.rs"]
+mod history;
 
 const SCHEMA_SDL: &str = "
 type Query { a: Int me: User q: Query }
@@ -996,6 +1001,7 @@ impl<'a> Ctx<'a> {
     /// an O failure; in an interleaved session the signature gets the prefix `interleaved:` and the call trace is appended
     fn ofail(&mut self, inter: Option<&Inter>, signature: &str, what: &str, cj: Value) {
         match inter {
+            Some(i) if i.history_decl.is_some() => self.rep.fail("O", &format!("history:{signature}"), &format!("[after a history of generate runs in one directory, operation file {}] {what}{}", i.path, i.trace_text()), cj),
             Some(i) => self.rep.fail("O", &format!("interleaved:{signature}"), &format!("[interleaved session, task t{} = {}] {what}{}", i.root, i.path, i.trace_text()), cj),
             None => self.rep.fail("O", signature, what, cj),
         }
@@ -1054,9 +1060,10 @@ impl<'a> Ctx<'a> {
             }
         };
         // (iii)
+        let history = inter.and_then(|i| i.history_decl.as_ref());
         let loader_result = match inter {
-            Some(i) => i.loader.clone(),
-            None => real_loader(case),
+            Some(i) if history.is_none() => i.loader.clone(),
+            _ => real_loader(case),
         };
         let loader = match loader_result {
             Ok(js) => js,
@@ -1077,8 +1084,8 @@ impl<'a> Ctx<'a> {
         };
         let mut texts: Vec<(&str, String, &Vec<Sexp>)> = vec![("dts", lib.dts.clone(), &m_dts), ("js", lib.js.clone(), &m_js), ("loader", loader.clone(), &m_loader)];
         // (i') CLI for a subset; only reachable when `check` accepts the files
-        let mut cli_dts = None;
-        if case.cli && lib.check_errors == 0 && !self.cli.is_empty() {
+        let mut cli_dts = history.cloned();
+        if history.is_none() && case.cli && lib.check_errors == 0 && !self.cli.is_empty() {
             let dir = self.scratch.join("c14-cli");
             match real_cli(case, &self.cli, &dir) {
                 Ok((ext, text)) => {
@@ -1114,13 +1121,18 @@ impl<'a> Ctx<'a> {
                     real.insert(label, c);
                 }
                 Err(e) if seq => self.rep.fail("K", &format!("extract:{label}"), &format!("{label}: cannot read the printed module: {e}"), cj.clone()),
+                Err(e) if *label == "cli-dts" && history.is_some() && lib.check_errors == 0 => {
+                    self.ofail(inter, "unreadable-declaration", &format!("the declaration file in the project directory is not a readable module: {e}"), cj.clone())
+                }
                 Err(e) if *label == "loader" && lib.check_errors == 0 => {
                     self.ofail(inter, "unreadable-module", &format!("the module the loader returned for this task is not a readable module: {e}"), cj.clone())
                 }
                 Err(_) => {}
             }
         }
-        if !seq {
+        if history.is_some() {
+            self.rep.count("history:declaration-files-judged-against-the-loader-module");
+        } else if !seq {
             self.rep.count("interleaved:modules-judged-against-their-declaration-file");
         }
         self.rep.count(&format!("config-format:{}", if case.config_text.trim_start().starts_with('{') { "json" } else { "yaml" }));
@@ -1142,6 +1154,8 @@ impl<'a> Ctx<'a> {
         self.rep.o_cases += 1;
         // the CLI's declaration file (when produced) is a second witness of the declaration side
         let decl_sources: Vec<(&str, &Vec<Sexp>)> = match real.get("cli-dts") {
+            Some(c) if history.is_some() => vec![("declaration file on disk after the last generate", c)],
+            None if history.is_some() => return,
             Some(c) if c == r_dts => vec![("library+cli", r_dts)],
             Some(c) => vec![("library", r_dts), ("cli", c)],
             None => vec![("library", r_dts)],
@@ -1250,7 +1264,7 @@ impl<'a> Ctx<'a> {
         // 6. the document itself: first definition of each loader constant is the definition it is named after;
         //    in standalone mode the declaration module holds the same JSON
         if let Ok(ls) = statements(&loader) {
-            let ds = statements(&lib.dts).unwrap_or_default();
+            let ds = statements(history.map(|s| s.as_str()).unwrap_or(&lib.dts)).unwrap_or_default();
             for s in &ls {
                 if let Stmt::Const { name, value: Some(v), .. } = s {
                     if let (Ok(j), Ok(m)) = (serde_json::from_str::<Value>(v), json_marker(v)) {
@@ -1281,7 +1295,7 @@ impl<'a> Ctx<'a> {
         }
         if let Some(i) = inter {
             // the module of a file must not depend on what else the loader instance is doing
-            if self.fail_total() == fails_before && i.sequential.as_ref().ok() != Some(&loader) {
+            if history.is_none() && self.fail_total() == fails_before && i.sequential.as_ref().ok() != Some(&loader) {
                 self.ofail(inter, "module-depends-on-history", "the module differs from the module a fresh one-at-a-time session returns for the same file and configuration (declared exports are all present and carry the right documents)", cj.clone());
             }
             return;
@@ -1305,10 +1319,19 @@ struct Inter {
     root: usize,
     path: String,
     trace: Vec<String>,
+    /// `Some(text)`: not an interleaved session but a `generate` history (c14/history.rs): `text` is the declaration file found in
+    /// the project directory after the last run; the loader is driven one task at a time with the final config
+    history_decl: Option<String>,
 }
 impl Inter {
     fn trace_text(&self) -> String {
-        if self.trace.is_empty() { String::new() } else { format!("; ABI calls of the session: {}", self.trace.join(" | ")) }
+        if self.trace.is_empty() {
+            String::new()
+        } else if self.history_decl.is_some() {
+            format!("; history: {}", self.trace.join(" | "))
+        } else {
+            format!("; ABI calls of the session: {}", self.trace.join(" | "))
+        }
     }
 }
 
@@ -1640,7 +1663,7 @@ impl<'a> Ctx<'a> {
                     self.rep.count("interleaved:module:identical-to-one-at-a-time");
                     continue;
                 }
-                let inter = Inter { loader: got, sequential: reference[k].clone(), session: sj.clone(), root: k, path: proj.task_path(k), trace: trace.clone() };
+                let inter = Inter { loader: got, sequential: reference[k].clone(), session: sj.clone(), root: k, path: proj.task_path(k), trace: trace.clone(), history_decl: None };
                 let ans = self.drv.batch(&[case.request()]);
                 if let Some(a) = ans.first() {
                     self.judge(case, a, Some(&inter));
@@ -1757,7 +1780,7 @@ fn main() {
     }
     let args = Args::parse();
     quiet_panics();
-    let mut rep = Report::new("C14", "case = (config text, operation file text, imported file texts); non-trivial = check accepts the document, the declaration file has at least one value export, and the file has >= 2 definitions or a naming/export option is set; distinct by (abstract config, resolved document); an interleaved loader session (several files of one project built by one loader instance) is non-trivial if at least two builds are pending at the same time; distinct by (project texts, call schedule)");
+    let mut rep = Report::new("C14", "case = (config text, operation file text, imported file texts); non-trivial = check accepts the document, the declaration file has at least one value export, and the file has >= 2 definitions or a naming/export option is set; distinct by (abstract config, resolved document); an interleaved loader session (several files of one project built by one loader instance) is non-trivial if at least two builds are pending at the same time; distinct by (project texts, call schedule); every history of generate runs in one project directory (>= 2 runs with an edit in between) is non-trivial; distinct by (states, touched mtimes)");
     let mut drv = Driver::spawn(&args.driver);
     let schema_doc = {
         let mut doc = parse_type_system_document(SCHEMA_SDL).expect("schema parses");
@@ -1773,7 +1796,9 @@ fn main() {
 
     if let Some(path) = &args.replay {
         let v: Value = serde_json::from_str(&std::fs::read_to_string(path).expect("replay file")).expect("replay json");
-        if v["case"]["kind"] == "interleaved" {
+        if v["case"]["kind"] == "history" {
+            ctx.run_history(&history::history_from_json(&v["case"]), "replay");
+        } else if v["case"]["kind"] == "interleaved" {
             let mut client = session::Client::new();
             ctx.run_project(&mut client, &Project::from_json(&v["case"]), &[SessionSpec::from_json(&v["case"])], "replay");
         } else {
@@ -1801,6 +1826,14 @@ fn main() {
         ctx.interleaved_stream(&mut client, &mut irng, args.thorough());
         let secs = json!({"total": (t0.elapsed().as_secs_f64() * 10.0).round() / 10.0, "in_session_worker": (ctx.worker_seconds * 10.0).round() / 10.0});
         ctx.rep.extra.insert("interleaved_seconds".into(), secs);
+    }
+
+    // histories of generate runs in one project directory (own random stream)
+    {
+        let mut hrng = Rng::new(args.seed ^ 0x4157_0E1E_5000);
+        let t0 = std::time::Instant::now();
+        ctx.history_stream(&mut hrng, args.thorough());
+        ctx.rep.extra.insert("history_seconds".into(), json!((t0.elapsed().as_secs_f64() * 10.0).round() / 10.0));
     }
 
     // the product: Booleans (with "absent") × modes × fixed files × suffix choices
